@@ -392,6 +392,23 @@ def run_case(ctx, family, params):
             if k < yt.shape[0]:
                 ctx.check(f"{kind}-conditions-met", subject, abs(yt[k, end] - val) / (tol * scale_t[k]), COND_FACTOR, sig=f"order{order}:d{k}", detail={"got": float(yt[k, end]), "want": val, "end": end, **info})
         ctx.check("callbacks-used", subject, pr.calls["fx"] > 0 and (pr.calls["coef"] > 0 or mode in ("array", "list") or pr.is_constant()))
+        # the returned callable is a function of the points it is given, on EVERY call: evaluate it again on a second
+        # point set with the same length and the same first/last elements but different interior points
+        xs2 = xs.copy()
+        xs2[2:-1] = np.sort(rng.uniform(a, b, NPTS - 3))
+        exact2 = pr.exact(xs2)
+        g2 = np.array([ode_ref.map_derivs(tf, x) for x in xs2])
+        scale2 = np.maximum(_scales(pr, xs2, exact2, g2, order, direction), _scales(pr, xs2, exact2, None, order, direction))
+        try:
+            y2 = _call(ctx, esubj + ":returned-callable:second-point-set", lambda: np.asarray(sol_t(xs2.copy())))
+        except _NoConvergence:
+            y2 = _MISSING
+        if y2 is not _MISSING and y2.shape == ((NPTS,) if nod else (order, NPTS)):
+            y2 = y2[None, :] if nod else y2
+            for k in range(y2.shape[0]):
+                err = float(np.max(np.abs(y2[k] - exact2[k])))
+                ctx.check(f"{kind}-returned-callable-second-point-set", subject, err / (tol * scale2[k]), ACC_FACTOR[kind], sig=f"order{order}:d{k}", detail={"err": err, "scale": scale2[k], **info})
+            ctx.hit("returned-callable:second-point-set")
 
 
 COND_FACTOR = 10.0
